@@ -53,6 +53,8 @@ type Ctx struct {
 
 	mu      sync.Mutex
 	rep     Report
+	walMu   sync.Mutex
+	walF    *os.File
 	maxViol int
 	nviol   map[string]int
 }
@@ -187,13 +189,20 @@ func (c *Ctx) WAL(caseID string, data []byte) {
 	if c.WALPath == "" {
 		return
 	}
-	f, err := os.OpenFile(c.WALPath, os.O_CREATE|os.O_WRONLY|os.O_TRUNC, 0o644)
-	if err != nil {
-		return
+	c.walMu.Lock()
+	defer c.walMu.Unlock()
+	if c.walF == nil {
+		f, err := os.OpenFile(c.WALPath, os.O_CREATE|os.O_WRONLY|os.O_TRUNC, 0o644)
+		if err != nil {
+			return
+		}
+		c.walF = f
 	}
-	fmt.Fprintf(f, "%s\n", caseID)
-	f.Write(data)
-	f.Close()
+	// One file kept open and overwritten in place (open/close per case costs ~1 ms on ext4).
+	buf := make([]byte, 0, len(caseID)+1+len(data))
+	buf = append(append(append(buf, caseID...), '\n'), data...)
+	c.walF.WriteAt(buf, 0)
+	c.walF.Truncate(int64(len(buf)))
 }
 
 // Guard runs f, turning a panic of the code under test into a violation.
